@@ -170,6 +170,7 @@ class C11(Prop):
                 nr = len(files)
                 cfgs.append((0, False, "none", "", str(nr - 1)))
                 cfgs.append((1, True, "none", "fwd", str(nr // 2)))
+                cfgs.append((2, False, "none", "", "grow"))
             for s, mp, rn, order, hist in cfgs:
                 obs["configs"].append(run_child(d, s, mp, rn, order, files, hist))
         return obs
